@@ -15,11 +15,17 @@ import (
 )
 
 type Op struct {
-	New    bool     `json:"new,omitempty"`
-	G      string   `json:"g,omitempty"`    // "Box" | "Pair"
-	Args   []string `json:"args,omitempty"` // type-argument kinds
-	Raw    string   `json:"raw,omitempty"`  // "raw": `new G()` without type arguments; "sub": `new AnyG()`, AnyG a plain subclass of the generic
-	Inst   int      `json:"inst"`           // write: target instance (creation index)
+	New  bool     `json:"new,omitempty"`
+	G    string   `json:"g,omitempty"`    // "Box" | "Pair"
+	Args []string `json:"args,omitempty"` // type-argument kinds
+	// nested instantiation: Form "ctor" `new G<Args>(new G2<Args2>())`, "short" `G<Args>(G2<Args2>())`,
+	// "chain" `new G<Args>()->take(new G2<Args2>())`. Such an op creates TWO instances: the outer one
+	// (#n) and the inner one (#n+1, fetched back through $outer->inner).
+	Form   string   `json:"form,omitempty"`
+	G2     string   `json:"g2,omitempty"`
+	Args2  []string `json:"args2,omitempty"`
+	Raw    string   `json:"raw,omitempty"` // "raw": `new G()` without type arguments; "sub": `new AnyG()`, AnyG a plain subclass of the generic
+	Inst   int      `json:"inst"`          // write: target instance (creation index)
 	Member string   `json:"member,omitempty"`
 	Route  string   `json:"route,omitempty"` // "prop" | "meth"
 	Val    string   `json:"val,omitempty"`   // value kind
@@ -33,12 +39,47 @@ func (o Op) String() string {
 		case "sub":
 			return "new Any" + o.G + "()"
 		}
-		return "new " + o.G + "<" + strings.Join(o.Args, ",") + ">"
+		outer := o.G + "<" + strings.Join(o.Args, ",") + ">"
+		inner := o.G2 + "<" + strings.Join(o.Args2, ",") + ">"
+		switch o.Form {
+		case "ctor":
+			return "new " + outer + "(new " + inner + ")"
+		case "short":
+			return outer + "(" + inner + "())"
+		case "chain":
+			return "new " + outer + "->take(new " + inner + ")"
+		}
+		return "new " + outer
 	}
 	if o.Route == "meth" {
 		return fmt.Sprintf("#%d.set_%s(%s)", o.Inst, o.Member, o.Val)
 	}
 	return fmt.Sprintf("#%d.%s=%s", o.Inst, o.Member, o.Val)
+}
+
+// creates is the number of instances an op adds (nested instantiations add the inner one too).
+func (o Op) creates() int {
+	if !o.New {
+		return 0
+	}
+	if o.Form != "" {
+		return 2
+	}
+	return 1
+}
+
+// instGenerics lists the generic class of every live instance, in creation order.
+func instGenerics(seq []Op) []string {
+	var gs []string
+	for _, o := range seq {
+		if o.New {
+			gs = append(gs, o.G)
+			if o.Form != "" {
+				gs = append(gs, o.G2)
+			}
+		}
+	}
+	return gs
 }
 
 func seqString(s []Op) string {
@@ -69,6 +110,7 @@ type alpha struct {
 	Types    []string // kinds usable as type arguments
 	Vals     []string // kinds of written values
 	Routes   []string
+	Nested   bool // also nested instantiations (ctor / short / chain forms) with every inner G2<Args2>
 	Raw      bool // also `new G()` without type arguments and `new AnyG()` (class AnyG extends G {})
 }
 
@@ -128,8 +170,8 @@ func (c concr) prelude() string {
 	var sb strings.Builder
 	fmt.Fprintf(&sb, "class %s { public $n = 1; }\n", c.u)
 	fmt.Fprintf(&sb, "class %s { public $n = 2; }\n", c.w)
-	fmt.Fprintf(&sb, "class %s<T> {\n  public T $v;\n  public function set_v(T $x) { $this->v = $x; return 1; }\n}\n", c.box)
-	fmt.Fprintf(&sb, "class %s<K, V> {\n  public K $k;\n  public V $v;\n  public function set_k(K $x) { $this->k = $x; return 1; }\n  public function set_v(V $x) { $this->v = $x; return 1; }\n}\n", c.pair)
+	fmt.Fprintf(&sb, "class %s<T> {\n  public T $v;\n  public $inner = null;\n  public function __construct($inner = null) { $this->inner = $inner; }\n  public function take($x) { $this->inner = $x; return $this; }\n  public function set_v(T $x) { $this->v = $x; return 1; }\n}\n", c.box)
+	fmt.Fprintf(&sb, "class %s<K, V> {\n  public K $k;\n  public V $v;\n  public $inner = null;\n  public function __construct($inner = null) { $this->inner = $inner; }\n  public function take($x) { $this->inner = $x; return $this; }\n  public function set_k(K $x) { $this->k = $x; return 1; }\n  public function set_v(V $x) { $this->v = $x; return 1; }\n}\n", c.pair)
 	fmt.Fprintf(&sb, "class Any%s extends %s { }\nclass Any%s extends %s { }\n", c.box, c.box, c.pair, c.pair)
 	return sb.String()
 }
@@ -156,6 +198,29 @@ func (c concr) script(seq []Op) string {
 				cls = g
 			case "sub":
 				cls = "Any" + g
+			}
+			if o.Form != "" {
+				g2 := c.box
+				if o.G2 == "Pair" {
+					g2 = c.pair
+				}
+				tb := make([]string, len(o.Args2))
+				for i, a := range o.Args2 {
+					tb[i] = c.typeName(a)
+				}
+				in := g2 + "<" + strings.Join(tb, ", ") + ">"
+				expr := ""
+				switch o.Form {
+				case "ctor":
+					expr = "new " + cls + "(new " + in + "())"
+				case "short":
+					expr = cls + "(" + in + "())"
+				case "chain":
+					expr = "new " + cls + "()->take(new " + in + "())"
+				}
+				fmt.Fprintf(&sb, "try { $%s%d = %s; $%s%d = $%s%d->inner; echo \"N\\n\"; } catch (Throwable $e) { echo \"X\\n\"; }\n", c.inst, n, expr, c.inst, n+1, c.inst, n)
+				n += 2
+				continue
 			}
 			fmt.Fprintf(&sb, "try { $%s%d = new %s(); echo \"N\\n\"; } catch (Throwable $e) { echo \"X\\n\"; }\n", c.inst, n, cls)
 			n++
@@ -203,6 +268,18 @@ func (c concr) expect(seq []Op) (lines []string, ok bool) {
 				in.stored[m] = "null"
 			}
 			live = append(live, in)
+			if o.Form != "" {
+				ms2 := members[o.G2]
+				if o.Raw != "" || len(ms2) == 0 || len(ms2) != len(o.Args2) {
+					return nil, false
+				}
+				in2 := &instance{g: o.G2, bind: map[string]string{}, stored: map[string]string{}}
+				for i, m := range ms2 {
+					in2.bind[m] = o.Args2[i]
+					in2.stored[m] = "null"
+				}
+				live = append(live, in2)
+			}
 			lines = append(lines, "N")
 			continue
 		}
@@ -230,12 +307,10 @@ func (c concr) expect(seq []Op) (lines []string, ok bool) {
 	return lines, true
 }
 
-// successors appends every op that may follow seq under alphabet a.
-func successors(seq []Op, a alpha, out []Op) []Op {
-	out = out[:0]
+func typedNews(a alpha) []Op {
+	var out []Op
 	for _, g := range a.Generics {
-		ms := members[g]
-		if len(ms) == 1 {
+		if len(members[g]) == 1 {
 			for _, t := range a.Types {
 				out = append(out, Op{New: true, G: g, Args: []string{t}})
 			}
@@ -247,24 +322,41 @@ func successors(seq []Op, a alpha, out []Op) []Op {
 			}
 		}
 	}
+	return out
+}
+
+// successors appends every op that may follow seq under alphabet a.
+func successors(seq []Op, a alpha, out []Op) []Op {
+	out = out[:0]
+	plain := typedNews(a)
+	out = append(out, plain...)
+	if a.Nested {
+		for _, form := range []string{"ctor", "short", "chain"} {
+			for _, o := range plain {
+				for _, in := range plain {
+					// the `new`-less short form is only parsed for one type argument (`Pair<int,int>()`
+					// reads as comparisons — a syntax limit, not C19's subject)
+					if form == "short" && (o.G != "Box" || in.G != "Box") {
+						continue
+					}
+					out = append(out, Op{New: true, G: o.G, Args: o.Args, Form: form, G2: in.G, Args2: in.Args})
+				}
+			}
+		}
+	}
 	if a.Raw {
 		for _, g := range a.Generics {
 			out = append(out, Op{New: true, G: g, Raw: "raw"}, Op{New: true, G: g, Raw: "sub"})
 		}
 	}
-	n := 0
-	for _, o := range seq {
-		if !o.New {
-			continue
-		}
-		for _, m := range members[o.G] {
+	for n, g := range instGenerics(seq) {
+		for _, m := range members[g] {
 			for _, r := range a.Routes {
 				for _, v := range a.Vals {
 					out = append(out, Op{Inst: n, Member: m, Route: r, Val: v})
 				}
 			}
 		}
-		n++
 	}
 	return out
 }
